@@ -498,7 +498,8 @@ def _why_class(clause, why, ev):
 def record(tally, cfg, text0, pos0, path, ev, verdicts, obs):
     for clause, (ok, why, nt) in verdicts.items():
         def detail(clause=clause, why=why):
-            return {"clause": clause, "why": why, "cfg": cfg, "text0": text0, "pos0": pos0, "path": list(path), "event": ev, "obs": obs, "class": ("zero-width-row|" if obs.get("zero_width_row") else "") + _why_class(clause, why, ev)}
+            # inner_clause / zero_width_at: top-level copies for the known-finding predicates
+            return {"clause": clause, "inner_clause": clause, "why": why, "cfg": cfg, "text0": text0, "pos0": pos0, "path": list(path), "event": ev, "obs": obs, "zero_width_at": list(obs.get("zero_width_at", [])), "class": ("zero-width-row|" if obs.get("zero_width_at") else "") + _why_class(clause, why, ev)}
 
         tally.case(clause, ok, nt, detail, sample={"cfg": cfg, "text0": text0, "pos0": pos0, "path": list(path), "event": ev})
 
@@ -623,7 +624,8 @@ def random_task(args):
             ok, info = random_history(cfg, text0, pos0, events)
 
             def detail(info=info, cfg=cfg, text0=text0, pos0=pos0, events=events):
-                return {"clause": "random-histories", "why": f"step {info.get('step')}: [{info.get('clause')}] {info.get('why')}", "cfg": cfg, "text0": text0, "pos0": pos0, "events": events, "obs": info.get("obs"), "class": ("zero-width-row|" if (info.get("obs") or {}).get("zero_width_row") else "") + _why_class(info.get("clause", ""), str(info.get("why")), info.get("event"))}
+                zw = list((info.get("obs") or {}).get("zero_width_at", []))
+                return {"clause": "random-histories", "inner_clause": info.get("clause"), "event": info.get("event"), "why": f"step {info.get('step')}: [{info.get('clause')}] {info.get('why')}", "cfg": cfg, "text0": text0, "pos0": pos0, "events": events, "obs": info.get("obs"), "zero_width_at": zw, "class": ("zero-width-row|" if zw else "") + _why_class(info.get("clause", ""), str(info.get("why")), info.get("event"))}
 
             tally.case("random-histories", ok, True, detail, sample={"cfg": cfg, "text0": text0, "pos0": pos0, "events": events})
     tally.cpu = time.process_time() - cpu0
@@ -666,6 +668,17 @@ def numeric_initial_one(ctor, kw):
     text = w.edit_text
     ok = alphabet_ok(cfg, text)
     return ok, f"{ctor}(default={kw['default']!r}, ...) holds {text!r}", True, text
+
+
+def numeric_offending(ctor, kw, text):
+    """classification aid for the failure details: the characters of `text` outside the alphabet (a leading
+    '-' is not counted when negatives are allowed), as a sorted string"""
+    if text is None:
+        return ""
+    cfg = {"IntEdit": {"kind": "intedit"}, "IntegerEdit": {"kind": "integeredit", "base": kw.get("base"), "neg": kw.get("allow_negative")}, "FloatEdit": {"kind": "floatedit", "sep": kw.get("decimal_separator"), "neg": kw.get("allow_negative")}}[ctor]
+    allowed, neg = allowed_alphabet(cfg)
+    body = text[1:] if (neg and text[:1] == "-") else text
+    return "".join(sorted({c for c in body if c not in allowed}))
 
 
 # ----------------------------------------------------------------------------------------------
@@ -789,9 +802,10 @@ def _pool_map(fn, tasks, procs):
 def _result(name, rule, bound, exhaustive, total, clause, t0):
     fails = []
     classes = total.fail.get(clause, {})
-    # round-robin over the reason classes, at most 20 reported
+    # round-robin over the reason classes, at most 20 reported; the classes of the known zero-width-row
+    # finding go last so that they can never crowd a different failure out of the report
     for k in range(CAP_PER_CLASS):
-        for cls, (n, items) in sorted(classes.items(), key=lambda kv: -kv[1][0]):
+        for cls, (n, items) in sorted(classes.items(), key=lambda kv: (kv[0].startswith("zero-width-row|"), -kv[1][0])):
             if k < len(items) and len(fails) < CAP_REPORT:
                 fails.append({**items[k], "failures_in_class": n})
     return {
@@ -837,7 +851,7 @@ def run(tier="quick", seed=0):
     with _Utf8():
         for ctor, kw in numeric_initial_cases():
             ok, why, nt, text = numeric_initial_one(ctor, kw)
-            chk.case((ctor, repr(kw)), ok, {"clause": "numeric-alphabet-initial", "why": why, "ctor": ctor, "kwargs": repr(kw)}, nontrivial=nt, sample={"ctor": ctor, "kwargs": repr(kw)})
+            chk.case((ctor, repr(kw)), ok, {"clause": "numeric-alphabet-initial", "why": why, "ctor": ctor, "kwargs": repr(kw), "text": text, "allow_negative": bool(kw.get("allow_negative", False)), "offending": numeric_offending(ctor, kw, text)}, nontrivial=nt, sample={"ctor": ctor, "kwargs": repr(kw)})
     chk.t0 = t1
     checks.append(chk.result())
 
